@@ -2,9 +2,9 @@
 
 PROP = dict(
     level="exploration",
-    technique="Go race detector as oracle over concurrent drivers whose activity alphabet and schedules come from the TLA+ specs (TraceCollector.tla validated traces, Cluster.tla / Reload.tla / Metrics.tla action alphabets); each distinct racing pair of functions is a finding",
+    technique="Go race detector as oracle over concurrent drivers whose activity alphabet and schedules come from the TLA+ specs (TraceCollector.tla validated traces, Cluster.tla / Reload.tla / Metrics.tla / PubSub.tla action alphabets); each distinct racing pair of functions is a finding",
     design_ref="DESIGN.md section 5 C35",
-    level_text="A TLA+ model cannot see memory-level races; what it contributes here is the schedule shapes: the real collector (3 workers, concurrent producers, clock, rules reloads, ejections - the same runs TLC validates against TraceCollector.tla), one real node (routers on both listeners, stress toggling, collector ticks, dispatch of both transmissions, config reloads that clear samplers and resize decision caches), concurrent config reloads, and concurrent metric registration/updates are executed under -race. Every race report whose stacks are in refinery code is a violation, identified by the pair of innermost refinery functions.",
+    level_text="A TLA+ model cannot see memory-level races; what it contributes here is the schedule shapes: the real collector (3 workers, concurrent producers, clock, rules reloads, ejections - the same runs TLC validates against TraceCollector.tla), one real node (routers on both listeners, stress toggling, collector ticks, dispatch of both transmissions, config reloads that clear samplers and resize decision caches), concurrent config reloads, concurrent metric registration/updates, and a real ConfigWatcher on a real LocalPubSub (Stop racing the monitor goroutine Start has just spawned, peer notices, reload callbacks - the schedules PubSub.tla's watcher model flags) are executed under -race. Every race report whose stacks are in refinery code is a violation, identified by the pair of innermost refinery functions.",
     level_note="The oracle is the Go race detector, not TLC; it decides nothing about interleavings the drivers do not produce. Peer membership (RedisPubsubPeers) and shutdown are not driven concurrently here. Distinct = number of independent concurrent runs; evaluations = events processed.",
     assumptions=["the race detector reports only real races"],
     stages=[dict(kind="trace", name="collector", module="TraceCollector", cfg="TraceCollector.cfg", pkg="collect", test="TestVerifCollectorTrace",
@@ -16,5 +16,14 @@ PROP = dict(
             dict(kind="gotest", name="reload", pkg="config", test="TestVerifC27Concurrent", harness=["config/c27_reload_test.go", "config/c27_concurrent_test.go", "config/c27_trace_test.go"],
                  race=True, race_oracle=True, race_only=True, budget={"quick": 8, "thorough": 60}),
             dict(kind="gotest", name="metrics", pkg="metrics", test="TestVerifC33Concurrent", harness=["metrics/c33_concurrent_test.go"],
+                 race=True, race_oracle=True, race_only=True, budget={"quick": 5, "thorough": 30}),
+            dict(kind="gotest", name="watcher", pkg="internal/configwatcher", test="TestVerifC35WatcherRace", harness=["internal/configwatcher/c35_watcher_race_test.go"],
                  race=True, race_oracle=True, race_only=True, budget={"quick": 5, "thorough": 30})],
 )
+
+import os, sys  # noqa: E402
+sys.path.insert(0, os.path.dirname(os.path.dirname(os.path.abspath(__file__))))
+import extstages  # noqa: E402
+# CX1: logs of three goroutines on one real LocalPubSub (the bus the config watcher and, without Redis, peer management use), run under -race;
+# TLC validates them against TracePubSub.tla, but here only the race detector decides
+PROP["stages"] += extstages.pick("CX1", ["TracePubSub"], race_only=True, name="pubsub")
